@@ -119,6 +119,7 @@ def build(reg):
     reg.classes[AUD] = ClassSpec(AUD, {'_Audit__artifact': ARTV, '_Audit__references': RT})
     def aud_ghost(eng, st):
         st.ghost['aver'] = V(INT, fresh_z(INT, 'aver'))       # version of self.__artifact's dependency record
+        st.ghost['LOADED'] = mk_bool(False); st.ghost['LOADED_ART'] = V(ARTV, fresh_z(ARTV, 'noart'))
     def closed(s, aud, ver):
         """closure invariant of an Audit object `aud` whose own artifact is at dependency-version `ver`"""
         refs = aud.f('__references'); art = aud.f('__artifact').z
@@ -147,6 +148,7 @@ def build(reg):
         sv = SV(eng, st)
         st.assume(closed(sv, W(eng, st, o), z3.IntVal(0)))
         st.ghost['loaded_ids'] = st.ghost.get('loaded_ids', [])
+        st.ghost['LOADED_ART'] = V(ARTV, eng.getfield(st, o, '_Audit__artifact').z); st.ghost['LOADED'] = mk_bool(True)
         return [(st, o)]
     @reg.model('bob.audit.Audit.getId')
     def getid(eng, st, args, kw, node):
@@ -157,6 +159,10 @@ def build(reg):
     def aud_req(s):
         return [('closed', closed(s, s.self, s.ghost.aver.z))]
     def aud_post(o, n, r): return closed(n, n.self, n.ghost.aver.z)
+    def recorded(o, n, r):
+        # the record of THIS step lists the dependency (dependencies.args / tools / sandbox), whether or not its trail was already known
+        a = n.st.ghost['self_art'].z
+        return z3.And(n.st.ghost['LOADED'].z, n.ghost.aver.z == o.ghost.aver.z + 1, z3.Select(REFS(a, n.ghost.aver.z), IDOF(n.st.ghost['LOADED_ART'].z, 0)))
     def self_factory(eng, st):
         o = eng.fresh(st, ObjT(AUD), 'self'); st.ghost['self_art'] = eng.getfield(st, o, '_Audit__artifact'); return o
     for q, p in (('addArg', 'arg'), ('addTool', 'tool'), ('setSandbox', 'sandbox')):
@@ -164,7 +170,7 @@ def build(reg):
         if q == 'addTool': params['name'] = STR
         params[p] = STR
         units.append(Unit(F, 'Audit.' + q, params, 'C14', requires=aud_req, ghost_init=aud_ghost,
-            ensures=[('references-stay-transitively-complete', aud_post)], modifies=['self.__references'],
+            ensures=[('references-stay-transitively-complete', aud_post), ('the-dependency-itself-is-recorded-in-the-artifact-exactly-once', recorded)], modifies=['self.__references'],
             note='merge the dependency trail, then reference it'))
     # __merge: verified on its own, used as contract above
     def merge_req(s): return [('closed', closed(s, s.self, s.ghost.aver.z)), ('operand-closed', closed(s, s.other, z3.IntVal(0)))]
@@ -176,7 +182,7 @@ def build(reg):
                       n.ghost.aver.z == o.ghost.aver.z)
     def other_factory(eng, st): return eng.fresh(st, ObjT(AUD), 'other')
     units.append(Unit(F, 'Audit.__merge', {'self': self_factory, 'other': other_factory}, 'C14', requires=merge_req, ghost_init=aud_ghost,
-        ensures=[('merged-and-still-closed', merge_post)], modifies=['self.__references']))
+        ensures=[('merged-and-still-closed', merge_post)], modifies=['self.__references'], modifies_ghost=False))
     reg.add(units[-1])
 
     units += [Watch(F, 'digestData', 'record digest (dynamic dispatch over JSON types)'), Watch(F, 'digestMap', 'sorted map digest'), Watch(F, 'digestString', 'string digest'),
